@@ -157,10 +157,10 @@ def P(pid, harnesses, claim, note, **kw):
     PROPERTIES[pid] = d
 
 P("C01", Q_ADD + Q_INPUT + Q_MISC + S_MIN + S_CONF + PC_GLUE[:1] + PC_ADJUST[:2] + U_STREAM_Q + U_STREAM_T + PC_ADJUST[2:],
-  "Kernels of the confirmed-timeline property decided on the real code: (Q, inductive, any history/ring wrap) add_input stores gaplessly, flags the earliest frame whose real input differs from the prediction handed out, input() hands out stored values as Confirmed; discard never drops a frame that can still be requested; (S) the rollback target is the earliest of all mispredictions and the disconnect frame; confirmed-frame bookkeeping keeps every frame a rollback can ask for; (U) the receiver delivers exactly the frames after its newest one, once, in order, with the packet's values, and acks release exactly the acknowledged prefix.",
+  "Kernels of the confirmed-timeline property decided on the real code: (Q, inductive, any history/ring wrap) add_input stores gaplessly, flags the earliest frame whose real input differs from the prediction handed out, input() hands out stored values as Confirmed; discard never drops a frame that can still be requested; (S) the rollback target is the earliest of all mispredictions and the disconnect frame; confirmed-frame bookkeeping keeps every frame a rollback can ask for; (PC) handle_rollback_and_save starts the rollback exactly then and from that frame, and the real adjust_gamestate re-simulates every frame from it with the stored real inputs as Confirmed (prediction only beyond the newest input); (U) the receiver delivers exactly the frames after its newest one, once, in order, with the packet's values, and acks release exactly the acknowledged prefix.",
   "Session-level composition (several ticks of P2PSession from its initial state) is outside what CBMC can symbolically execute here (a 4-tick run needs > 2M symex steps and > 40 GB); the claim is the conjunction of the component contracts, not an end-to-end run. Ring size 8 (quick) / 16 (thorough) instead of 128; u8 inputs; packets of 1-2 decoded inputs.")
 P("C02", S_CELLS + Q_MISC + S_CONF + PC_GLUE[:1] + PC_ADJUST + PC_SPARSE,
-  "Saved-state ring: after saving w+1 consecutive frames (the most a session holds) each of the w frames still open to rollback is loadable and returns exactly what was saved for it, for w = 1,2,3 and any base frame; load_frame moves the frame counter to the loaded frame; queue windows keep every frame from (confirmed-1) on.",
+  "Saved-state ring: after saving w+1 consecutive frames (the most a session holds) each of the w frames still open to rollback is loadable and returns exactly what was saved for it, for w = 1,2,3 and any base frame; load_frame moves the frame counter to the loaded frame; queue windows keep every frame from (confirmed-1) on; handle_rollback_and_save (dense) ends every call - also a repeated call on a stalled frame - with a SaveGameState for the current frame, (sparse) saves/rolls back exactly when the last saved frame would leave the window; adjust_gamestate's request list: one Load (first incorrect frame, dense / last saved frame, sparse) whose cell holds that frame, then gapless re-advances with a Save before each re-simulated frame but the loaded one (dense) / only at the confirmed frame (sparse), frame counter back where it started (5 instances).",
   "The request-list shape of whole advance_frame calls is decided only through these component contracts (see C01 note).")
 P("C03", Q_INPUT + Q_ADD + Q_MISC[2:] + S_INPUTS,
   "Input status truthfulness on the real InputQueue/SyncLayer: Confirmed <=> the frame's real input is stored, and the value is that input; Predicted => not yet received and value = predictor(newest received) (default if none), for PredictRepeatLast and PredictDefault, from any queue state; Disconnected <=> the player is disconnected as of an earlier frame, with the default input; the boundary frame (last real input) stays Confirmed.",
@@ -179,10 +179,10 @@ P("C09", U_CHECKSUM + PC_CHECKSUM,
   "Only the buffer/ordering kernel; the no-false-alarm half needs multi-tick session runs (outside reach).")
 P("C10", PE_CUTOFF + S_MIN + PC_INPUT + PE_PERM,
   "Cut-off agreement kernel on the real update_player_disconnects with real endpoints: when a surviving peer gossips that a player is disconnected as of frame m and this peer holds its inputs up to L, this peer adopts min(L, m), schedules the resimulation from the next frame and does not re-arm it on the next tick.",
-  "KNOWN FINDING F3: for m < L the unchanged tree keeps last_frame = L (see known_findings.json).")
+  "KNOWN FINDING F3: for m < L the unchanged tree keeps last_frame = L (witness pe_cutoff_agreement_gossip_earlier, see known_findings.json); the m >= L half, the late-input freeze and the order independence hold.")
 P("C11", Q_DELAY + Q_DELAY2 + Q_ADD + PC_DELAY + PC_REGISTER,
   "InputQueue delay change in steady state: the fills set_frame_delay announces are exactly the frames and values the queue stores when the next input is added (gapless, repeat-last); a decrease drops the next submission.",
-  "Sequences of changes before the queue has drained are a known finding candidate (F4) not yet witnessed by a harness.")
+  "KNOWN FINDING F4: two set_frame_delay calls before the next submission (witnesses q_delay_twice_1_2_3, _2_0_3, _1_3_1; controls with a repeated identical call pass). Session-level increase paths exceed the time cap (only the decrease instance pc_delay_1_to_0 is decided there).")
 P("C12", U_HANDSHAKE + U_LIVENESS + U_NORESUME + U_TIMERS + U_CAP + PC_EVENTS,
   "Lifecycle on the real endpoint: Synchronizing counts 1..4 then exactly one Synchronized after five distinct matched round trips (duplicates/stray/foreign replies do not count); NetworkResumed iff an interruption was announced; interruption/disconnect timers; a silent peer over the pending-output cap is asked to disconnect exactly once.",
   "Session-level forwarding and the event-queue cap are not yet covered.")
